@@ -25,7 +25,7 @@
 (* is exported ("HIST ...") and replayed into the real loop.               *)
 (*                                                                         *)
 (* Programs come from the ndjson file PROGS (gen/replhist.py): an AldorSem *)
-(* program plus forms : <<[k, i, defs, uses, asg]>>  cat : <<[c, sh]>>  maxbad. *)
+(* program plus forms : <<[k, i, defs, uses, must]>>  cat : <<[c, sh]>>  maxbad. *)
 (***************************************************************************)
 EXTENDS AldorSem, Sequences
 
@@ -52,9 +52,9 @@ NOk       == Cardinality(OkIdx)
 NBad      == Len(hist) - NOk
 Defined   == UNION {SeqSet(Forms[j].defs) : j \in Entered}   \* names the session has a meaning for
 WellTypedIn(j) == SeqSet(Forms[j].uses) \subseteq Defined    \* every name the form reads has a meaning
-(* it reads a name without a meaning and does not itself give it one (an assignment to an    *)
-(* unknown name declares it, so a form that assigns the missing name may well be accepted)   *)
-IllTypedIn(j) == (SeqSet(Forms[j].uses) \ SeqSet(Forms[j].asg)) \ Defined # {}
+(* a name whose absence surely makes the form ill typed (gen/replhist.py: read outside a    *)
+(* macro argument and not assigned by the form itself) has no meaning                         *)
+IllTypedIn(j) == SeqSet(Forms[j].must) \ Defined # {}
 
 (* the session machine is between two forms: a value has been returned to the file level *)
 Between == st.status = "run" /\ st.c.k = "val" /\ Len(st.k) = 1 /\ st.k[1].f = "top"
